@@ -29,9 +29,9 @@ CONSTANTS NetKinds,     \* subset of {"drop","dup","hold1","hold2","split2","spl
           UseDeadline,  \* TRUE: the handshake deadline may fire (safety runs)
           SendAppData   \* TRUE: one application record each way once both are Connected
 
-VARIABLES ep, outbox, net, held, cnt, shift, nb, ab, ops, cfg, appSent
+VARIABLES ep, outbox, net, held, cnt, shift, nb, ab, ops, cfg, appSent, mDone
 
-vars == <<ep, outbox, net, held, cnt, shift, nb, ab, ops, cfg, appSent>>
+vars == <<ep, outbox, net, held, cnt, shift, nb, ab, ops, cfg, appSent, mDone>>
 
 Dir == {"C>S", "S>C"}
 DirOf(e) == IF e = "C" THEN "C>S" ELSE "S>C"
@@ -53,7 +53,8 @@ Init ==
   /\ net = [d \in Dir |-> <<>>]
   /\ held = [d \in Dir |-> <<>>]
   /\ cnt = [d \in Dir |-> <<>>]          \* sequence of [lab, n] pairs (small association list)
-  /\ shift = [d \in Dir |-> 0]
+  /\ shift = [d \in Dir |-> <<>>]       \* renumbering rules [from, delta]: message_seq >= from moves by delta
+  /\ mDone = FALSE
   /\ nb = NetBudget /\ ab = AdvBudget
   /\ ops = <<>>
   /\ appSent = [e \in E |-> FALSE]
@@ -76,7 +77,7 @@ Apply(e, r) ==
 Start(e) ==
   /\ ~ep[e].started /\ outbox = <<>>
   /\ Apply(e, StartOf(ep[e]))
-  /\ UNCHANGED <<net, held, cnt, shift, nb, ab, ops, cfg, appSent>>
+  /\ UNCHANGED <<net, held, cnt, shift, nb, ab, ops, cfg, appSent, mDone>>
 
 Deliver(d) ==
   /\ outbox = <<>> /\ net[d] # <<>>
@@ -85,7 +86,7 @@ Deliver(d) ==
        /\ ep' = [ep EXCEPT ![RecvOf(d)] = r.s]
        /\ outbox' = Flatten(RecvOf(d), r.out)
   /\ net' = [net EXCEPT ![d] = Tail(@)]
-  /\ UNCHANGED <<held, cnt, shift, nb, ab, ops, cfg, appSent>>
+  /\ UNCHANGED <<held, cnt, shift, nb, ab, ops, cfg, appSent, mDone>>
 
 \* The retransmission timer is long compared with the transit time: it fires when the network is quiet.
 TickMay(e) == IF TickQuiet THEN Quiescent
@@ -94,20 +95,20 @@ Tick(e) ==
   /\ TickMay(e) /\ ep[e].started
   /\ ep[e].st = "Handshaking" /\ TickOf(ep[e]).out # <<>>
   /\ Apply(e, TickOf(ep[e]))
-  /\ UNCHANGED <<net, held, cnt, shift, nb, ab, ops, cfg, appSent>>
+  /\ UNCHANGED <<net, held, cnt, shift, nb, ab, ops, cfg, appSent, mDone>>
 
 Deadline(e) ==
   /\ UseDeadline /\ Quiescent /\ ep[e].started
   /\ ep[e].st = "Handshaking"
   /\ Apply(e, DeadlineOf(ep[e]))
-  /\ UNCHANGED <<net, held, cnt, shift, nb, ab, ops, cfg, appSent>>
+  /\ UNCHANGED <<net, held, cnt, shift, nb, ab, ops, cfg, appSent, mDone>>
 
 SendApp(e) ==
   /\ SendAppData /\ Quiescent /\ ~appSent[e]
   /\ ep["C"].st = "Connected" /\ ep["S"].st = "Connected"
   /\ appSent' = [appSent EXCEPT ![e] = TRUE]
   /\ outbox' = <<[dir |-> DirOf(e), m |-> AppOf(ep[e])]>>
-  /\ UNCHANGED <<ep, net, held, cnt, shift, nb, ab, ops, cfg>>
+  /\ UNCHANGED <<ep, net, held, cnt, shift, nb, ab, ops, cfg, mDone>>
 
 ---------------------------------------------------------------------------
 (* The proxy                                                                *)
@@ -119,7 +120,10 @@ CntSet(d, lab, n) ==
   IN IF S = {} THEN [cnt EXCEPT ![d] = Append(@, [lab |-> lab, n |-> n])]
      ELSE [cnt EXCEPT ![d][CHOOSE i \in S : TRUE].n = n]
 
-Shifted(d, m) == IF Plain(m.t) /\ shift[d] # 0 THEN [m EXCEPT !.ms = m.ms + shift[d]] ELSE m
+RECURSIVE Delta(_, _)
+Delta(rules, ms) == IF rules = <<>> THEN 0
+                    ELSE (IF ms >= Head(rules).from THEN Head(rules).delta ELSE 0) + Delta(Tail(rules), ms)
+Shifted(d, m) == IF Plain(m.t) THEN [m EXCEPT !.ms = m.ms + Delta(shift[d], m.ms)] ELSE m
 
 \* Put `ms` (a sequence of datagrams) on the wire in direction d; each one overtakes the held datagrams.
 RECURSIVE Release(_, _)
@@ -142,8 +146,16 @@ OpRec(d, lab, o, kind, k) == [dir |-> d, msg |-> lab, ord |-> o, kind |-> kind, 
 Fragments(m, n) == [i \in 1..n |-> [m EXCEPT !.frag = i, !.nfrag = n,
                                                  !.lo = ((i - 1) * Units) \div n, !.hi = (i * Units) \div n]]
 
+Inj2Kinds == {"inj_sh2", "inj_cert2", "inj_ske2"}
+Inj2(kind, ms) ==
+  CASE kind = "inj_sh2"   -> [Msg("SH", ms) EXCEPT !.rnd = "rM", !.prof = "1"]
+    [] kind = "inj_cert2" -> [Msg("CERT", ms) EXCEPT !.cert = "certM"]
+    [] kind = "inj_ske2"  -> [Msg("SKE", ms) EXCEPT !.dh = "dhM", !.sigDh = "dhM", !.sigBy = "certM", !.sigN = "M",
+                                                   !.sigCr = "*", !.sigSr = "*"]
+
 AdvApplicable(kind, m) ==
   \/ RewriteApplies(kind, m)
+  \/ kind \in Inj2Kinds /\ m.t = "SHD"
   \/ kind = "omit" /\ (Plain(m.t) \/ m.t = "CCS")
   \/ kind \in {"inj_app0", "inj_fin0"}
 
@@ -198,7 +210,7 @@ ProxyStep ==
                 /\ AdvApplicable(kind, m)
                 /\ ops' = Append(ops, OpRec(d, lab, o, kind, 0))
                 /\ \/ /\ kind = "omit"
-                      /\ shift' = [shift EXCEPT ![d] = IF Plain(m.t) THEN @ - 1 ELSE @]
+                      /\ shift' = [shift EXCEPT ![d] = IF Plain(m.t) THEN Append(@, [from |-> m.ms, delta |-> -1]) ELSE @]
                       /\ outbox' = Tail(outbox) /\ UNCHANGED <<net, held>>
                    \/ /\ kind = "inj_app0"                          \* plaintext ApplicationData ahead of m
                       /\ net' = [net EXCEPT ![d] = @ \o <<Msg("APP", 0), fwd>>]
@@ -206,12 +218,28 @@ ProxyStep ==
                    \/ /\ kind = "inj_fin0"                          \* plaintext Finished (garbage) ahead of m
                       /\ net' = [net EXCEPT ![d] = @ \o <<[Msg("FIN", fwd.ms) EXCEPT !.bad = TRUE], fwd>>]
                       /\ outbox' = Tail(outbox) /\ UNCHANGED <<held, shift>>
-                   \/ /\ kind \notin {"omit", "inj_app0", "inj_fin0"}
+                   \/ /\ kind \in Inj2Kinds       \* a second ServerHello / Certificate / ServerKeyExchange of M's
+                      /\ net' = [net EXCEPT ![d] = @ \o <<Inj2(kind, fwd.ms), [fwd EXCEPT !.ms = fwd.ms + 1]>>]   \* making
+                      /\ shift' = [shift EXCEPT ![d] = Append(@, [from |-> m.ms, delta |-> 1])]
+                      /\ outbox' = Tail(outbox) /\ UNCHANGED held
+                   \/ /\ kind \notin {"omit", "inj_app0", "inj_fin0"} \cup Inj2Kinds
                       /\ Wire(d, Shifted(d, Rewrite(kind, m)), 1)
                       /\ outbox' = Tail(outbox) /\ UNCHANGED shift
            /\ ab' = ab - 1
            /\ UNCHANGED nb
-  /\ UNCHANGED <<ep, cfg, appSent>>
+  /\ UNCHANGED <<ep, cfg, appSent, mDone>>
+
+\* M holds the secret of dhM: once the client has derived its keys from that share, M can compute the same master
+\* secret (everything else it needs travelled in clear) and finish the handshake in the server's place: ChangeCipherSpec,
+\* a correct Finished, application data.
+MTakeover ==
+  /\ AdvBudget > 0 /\ ~mDone /\ outbox = <<>>
+  /\ ep["C"].st = "Handshaking" /\ ep["C"].keys # NoMaster /\ "dhM" \in ep["C"].keys.pre
+  /\ mDone' = TRUE
+  /\ net' = [net EXCEPT !["S>C"] = @ \o <<Msg("CCS", 0),
+                 [Msg("FIN", ep["C"].recvSeq) EXCEPT !.fin = Fin("S", ep["C"].keys, ep["C"].tr), !.enc = ep["C"].keys],
+                 [Msg("APP", 0) EXCEPT !.enc = ep["C"].keys]>>]
+  /\ UNCHANGED <<ep, outbox, held, cnt, shift, nb, ab, ops, cfg, appSent>>
 
 Forward ==   \* ProxyStep without an operation (for fairness)
   /\ outbox # <<>>
@@ -219,6 +247,7 @@ Forward ==   \* ProxyStep without an operation (for fairness)
 
 Next ==
   \/ ProxyStep
+  \/ MTakeover
   \/ \E e \in E : Start(e) \/ Tick(e) \/ Deadline(e) \/ SendApp(e)
   \/ \E d \in Dir : Deliver(d)
 
@@ -257,7 +286,8 @@ Settled == Quiescent /\ \A e \in E : ep[e].started /\ ep[e].st # "Handshaking"
 OutRec == [ops |-> ops, cfg |-> cfg,
            final |-> [e \in E |-> ep[e].st],
            keysEq |-> (ep["C"].keys = ep["S"].keys),
-           auth |-> [e \in E |-> AuthOf(ep[e])],
+           auth |-> [e \in E |-> AuthOf(ep[e]) /\ ((ep[e].st = "Connected" /\ ep[e].expFp # "none" /\ e = "C")
+                                                      => ep[e].peerDh = DhOf(ep[e].expFp))],
            appGot |-> [e \in E |-> ep[e].appGot]]
 
 EmitSched   == (ops' # ops) => PrintT(<<"SCHED", ToJson([ops |-> ops', cfg |-> cfg])>>)
